@@ -148,7 +148,9 @@ CHECKS = {
                 "standing anywhere inside its columns is read as the value (justification independence); the integers written in a field are the integers "
                 "read; a coordinate line assembled from 21 fields of the column widths is lexed to exactly the values of its fields without a diagnostic. "
                 "The columns every function of the lexer reads are regenerated from the source on every run (T6) and proved equal to the reviewed table "
-                "of the format description's columns (104 fields of 17 record types).",
+                "of the format description's columns (104 fields of 17 record types). The record loop of the reader model on a coordinate record is "
+                "proved to be a first-match insert-or-update at the three levels, and any run of such records is proved to build exactly the nested "
+                "first-appearance partition of the specification (reader model = grouping specification, for every record sequence).",
         "design_ref": "DESIGN.md section 6 C01",
         "note": "Partial: the refinement read_pdb (render recs) = denote recs is checked by correspondence, not proved; DBREF/SEQADV/MODRES/SSBOND are "
                 "covered by the reader-model correspondence only; SEQRES validation is not modelled. Trusted: Coq kernel, T2 table translators, the "
